@@ -98,7 +98,12 @@ def run_real(prog):
                 a = st.pop(); sa = sem.pop()
                 push(int(parts[1]) / a, 'pole' if (isinstance(sa, str) or iszero(sa)) else Q.lift(int(parts[1])) / Q.lift(sa))
             elif op == 'pow':
-                a = st.pop(); sa = sem.pop(); push(a ** int(parts[1]), S(lambda x: x ** int(parts[1]), sa))
+                a = st.pop(); sa = sem.pop()
+                n = int(parts[1])
+                if n >= 0:
+                    push(a ** n, S(lambda x: x ** n, sa))
+                else:
+                    push(a ** n, 'pole' if (isinstance(sa, str) or iszero(sa)) else Q.lift(1) / (Q.lift(sa) ** (-n)))
             elif op in ('eq0', 'eq1', 'bool'):
                 a = st.pop(); sa = sem.pop()
                 if op == 'eq0':
@@ -142,7 +147,7 @@ def gen_program(rng, rational, length):
             ops = ['add', 'mul', 'sub', 'add', 'mul'] + (['div'] if rational else [])
             prog.append(rng.choice(ops)); depth -= 1
         elif r < 0.92:
-            prog.append(rng.choice(['neg', 'dup', 'swap', 'pow:2', 'pow:3'] + (['rdiv:1', 'rdiv:2'] if rational else [])))
+            prog.append(rng.choice(['neg', 'dup', 'swap', 'pow:2', 'pow:3'] + (['rdiv:1', 'rdiv:2', 'pow:-1', 'pow:-2', 'pow:-3'] if rational else [])))
             if prog[-1] == 'dup': depth += 1
         else:
             prog.append(rng.choice(['neg', 'pow:1', 'pow:4' if not rational else 'pow:2']))
@@ -218,6 +223,13 @@ def monomial_family(rng, quick):
             yield mono(a, 'r') + mono(b, 'r') + ['div'] + mono(rng.choice(monos), 'r') + ['mul']   # (a/b) * c
         if rng.random() < 0.3:
             yield mono(a, 'r') + ['rn:1'] + mono(b, 'r') + ['div', 'mul'] + mono(a, 'r') + mono(b, 'r') + ['div', 'eq']
+    # negative integer powers of fractions against the inverse of the positive power
+    for a, b in (pairs if not quick else pairs[:60]):
+        for n in (1, 2, 3, 4):
+            frac = mono(a, 'r') + mono(b, 'r') + ['div']
+            yield frac + [f'pow:-{n}']
+            yield frac + [f'pow:-{n}'] + frac + [f'pow:{n}', 'mul', 'eq1']
+            yield frac + ['rn:1', 'add', f'pow:-{n}'] + ['rn:1'] + frac + ['rn:1', 'add', f'pow:{n}', 'div', 'sub', 'eq0']
     multi = [m for m in monos if len(set(m)) >= 2]
     for m in multi:
         for pre in ('', 'r'):
